@@ -184,6 +184,71 @@ def check_source(ctx, src, tag, files=False):
                                   key=classify(want, dd[2], dd[1], rt3, dd[0]))
 
 
+def expected_listtokens(rt):
+    """What `p8tool listtokens` must print for the reference token list (format of pico8.tool.listtokens: newlines as line
+    breaks, <value> for blanks and comments, <position:value> for the others)."""
+    out = []
+    pos = 0
+    for t in rt:
+        if t.kind == 'newline':
+            out.append('\n')
+        elif t.kind in ('space', 'comment'):
+            out.append('<{}>'.format(t.raw))
+        else:
+            if t.kind == 'string':
+                v = t.value
+            elif t.kind == 'number':
+                v = float(t.value)
+            else:
+                v = t.raw
+            out.append('<{}:{}>'.format(pos, v))
+            pos += 1
+    out.append('\n')
+    return ''.join(out)
+
+
+def check_listtokens(ctx, sources, workdir):
+    """Several carts on one command line; the printed token list of each must be the reference's."""
+    import io as _io
+    import os
+    from pico8 import tool, util
+    paths = []
+    regions, _ = carts.random_regions(ctx.rng, 'zero')
+    for k, src in enumerate(sources):
+        p = os.path.join(workdir, 'lt%d.p8' % k)
+        with open(p, 'wb') as fh:
+            fh.write(rc.write_p8(regions, src, version=8))
+        paths.append(p)
+    buf = _io.StringIO()
+    old_stream, old_verb = util._write_stream, util._verbosity
+    util._write_stream = buf
+    util.set_verbosity(util.VERBOSITY_NORMAL)
+    try:
+        rcode = tool.main(['listtokens'] + paths)
+    except BaseException as e:
+        rcode = e
+    finally:
+        util._write_stream = old_stream
+        util.set_verbosity(old_verb)
+    case = {'src': sources[-1], 'tag': 'listtokens', 'all_sources': sources}
+    ctx.monitor('listtokens_runs')
+    if rcode:
+        ctx.violation('p8tool listtokens failed on lexable, parseable carts: %r' % (rcode,), case)
+        return
+    want = ''
+    for p, src in zip(paths, sources):
+        full = src if src.endswith(b'\n') else src + b'\n'
+        rt = lexcmp.merge_labels(reflex.lex(full))
+        if len(paths) > 1:
+            want += '=== {} ===\n'.format(p)
+        want += expected_listtokens(rt)
+    got = buf.getvalue()
+    if got != want:
+        d = next((i for i in range(min(len(got), len(want))) if got[i] != want[i]), min(len(got), len(want)))
+        ctx.violation('p8tool listtokens prints a different token list at output offset %d: %r vs expected %r' % (
+            d, got[max(0, d - 40):d + 40], want[max(0, d - 40):d + 40]), case)
+
+
 def gen_numbers():
     forms = []
     for fs in progen.NUM_FORMS.values():
@@ -326,8 +391,24 @@ def run_shard(spec, ctx):
                 if f.startswith(('num:', 'str:')):
                     ctx.feature(f)
             check_source(ctx, src, 'program', files=spec.get('files') and i % 4 == 0)
+            if spec.get('files') and i % 6 == 1 and b'\r' not in src:
+                import tempfile
+                batch = ctx.extra.setdefault('_lt_batch', [])
+                batch.append(src)
+                if len(batch) == 2:
+                    with tempfile.TemporaryDirectory() as d:
+                        try:
+                            from pico8.lua import lua as _lua
+                            for b_ in batch:
+                                _lua.Lua.from_lines([b_], version=8)
+                            check_listtokens(ctx, list(batch), d)
+                            check_listtokens(ctx, batch[:1], d)
+                        except Exception as e:
+                            ctx.violation('listtokens route raised %r' % (e,), {'src': src, 'tag': 'listtokens'})
+                    del batch[:]
             if i == 0:
                 ctx.sample({'program_source': src[:200]})
+    ctx.extra.pop('_lt_batch', None)
     for k in ('keywords', 'symbols'):
         if k in ctx.extra:
             ctx.extra[k] = sorted(ctx.extra[k])
@@ -359,6 +440,8 @@ def gates(m, tier):
             missed.append('number form %s seen %d times in programs' % (form, f.get('num:' + form, 0)))
     if mon.get('chunked_runs_compared', 0) < 1000:
         missed.append('chunked runs compared: %d' % mon.get('chunked_runs_compared', 0))
+    if mon.get('listtokens_runs', 0) < 10:
+        missed.append('listtokens CLI runs: %d' % mon.get('listtokens_runs', 0))
     if mon.get('p8_file_deliveries', 0) < 10 or mon.get('png_file_deliveries', 0) < 10:
         missed.append('file deliveries p8=%d png=%d' % (mon.get('p8_file_deliveries', 0), mon.get('png_file_deliveries', 0)))
     return missed
